@@ -5,6 +5,7 @@ import (
 	"fmt"
 	"io"
 	"net"
+	"runtime"
 	"sort"
 	"strings"
 	"time"
@@ -23,7 +24,7 @@ import (
 func init() {
 	ev.Register(&ev.Spec{
 		ID: "C17", Level: "exploration",
-		Rule:    "streams of 1-6 independent request frames (Twrite/Tread/Treaddir/Tgetattr/Twalk/Tversion, with and without payload) delivered to a real server under chosen segmentations: every single cut and every pair of cuts for streams <= 120 bytes, one byte at a time, PRNG cuts for long streams, every truncation offset followed by EOF (separately and together with the last bytes, and on a socket pair by shutting down the sending direction after that byte); on the generic io.Reader path (cut-imposing reader) and on an AF_UNIX socket pair (recvmsg path, segments paced by polling the receive queue); the same for a real client receiving segmented replies. Replies (by tag), backend-observed payload bytes and the backend call multiset must equal the unsegmented run. Non-trivial: >= 1 cut strictly inside a frame; distinct by (stream, cut set, path).",
+		Rule:    "streams of 1-6 independent request frames (Twrite/Tread/Treaddir/Tgetattr/Twalk/Tversion, with and without payload) delivered to a real server under chosen segmentations: every single cut and every pair of cuts for streams <= 120 bytes, one byte at a time, PRNG cuts for long streams, every truncation offset followed by EOF (separately and together with the last bytes, and on a socket pair by shutting down the sending direction after that byte); on the generic io.Reader path (cut-imposing reader) and on an AF_UNIX socket pair (recvmsg path, segments paced by polling the receive queue); the same for a real client receiving segmented replies; and two socket connections at once: A holds a Twrite cut after its header / inside its fixed part / inside its payload while B receives a whole frame, each backend stores what its own peer sent. Replies (by tag), backend-observed payload bytes and the backend call multiset must equal the unsegmented run. Non-trivial: >= 1 cut strictly inside a frame; distinct by (stream, cut set, path).",
 		Assume:  []string{"unsegmented delivery on the same connection is the reference", "socket segment boundaries are enforced by waiting until TIOCINQ reports an empty receive queue"},
 		Shards:  shards(8, 16),
 		Timeout: timeout(6*time.Minute, 45*time.Minute),
@@ -339,6 +340,7 @@ func insideFrame(enc [][]byte, cuts []int) bool {
 }
 
 func runC17(c *ev.Ctx) {
+	c17TwoSockets(c)
 	r := c.Rand("c17")
 	streams := c17Streams(r, c.Sz(100, 1600))
 	for si, frames := range streams {
@@ -858,5 +860,73 @@ func c17Client(c *ev.Ctx) {
 				sp.Close()
 			}
 		}
+	}
+}
+
+// c17TwoSockets: segmentation on one socket connection while ANOTHER socket
+// connection of the same process receives. Connection A has only the header of
+// a Twrite (its receiver waits for the body inside the vectorised read);
+// connection B then receives and answers a whole frame; then A's body
+// arrives. What each backend stores is what its own peer sent: whatever the
+// vectorised read keeps between its attempts is not shared with other reads.
+func c17TwoSockets(c *ev.Ctx) {
+	defer runtime.GOMAXPROCS(runtime.GOMAXPROCS(1 + c.Shard%2)) // one P in half of the shards: recycled objects go to the very next user
+	rounds := c.Sz(12, 200)
+	for round := 0; round < rounds; round++ {
+		if !c.Mine(round) {
+			continue
+		}
+		c.Begin(fmt.Sprintf("C17 two sockets round %d", round))
+		fxA, fxB := c17Setup(c, true), c17Setup(c, true)
+		if fxA == nil || fxB == nil {
+			if fxA != nil {
+				fxA.close()
+			}
+			if fxB != nil {
+				fxB.close()
+			}
+			continue
+		}
+		bad := false
+		for k := 0; k < 6 && !bad; k++ {
+			cutA := []int{7, 8, 7 + 16, 7 + 16 + 5}[(round+k)%4] // after the header, inside the fixed part, after it, inside the payload
+			dA, dB := c17Data(round, k, 300+k*7), c17Data(round+1000, k, 200+k*3)
+			offA, offB := uint64(k*1000), uint64(k*1000+500)
+			frA := wire.Encode(wire.Twrite, uint16(200+k), u(10), offA, dA)
+			frB := wire.Encode(wire.Twrite, uint16(300+k), u(11), offB, dB)
+			fromA, fromB := fxA.p.NReplies(), fxB.p.NReplies()
+			fxA.p.Expect(frA)
+			fxA.p.SendRaw(frA[:cutA])
+			fxA.p.Flush()
+			quiesce.WaitUntil(func() bool { return false }, wd) // A's receiver waits for the rest
+			fxB.p.Expect(frB)
+			fxB.p.SendRaw(frB)
+			if _, ok, o, d := fxB.p.WaitTag(uint16(300+k), fromB); !ok {
+				hang(c, o, d, "C17:two-sockets:request-unanswered:B", nil)
+				bad = true
+				break
+			}
+			fxA.p.SendRaw(frA[cutA:])
+			ra, ok, o, d := fxA.p.WaitTag(uint16(200+k), fromA)
+			if !ok {
+				hang(c, o, d, "C17:two-sockets:request-unanswered:A", map[string]any{"cut": cutA})
+				bad = true
+				break
+			}
+			det := map[string]any{"cut": cutA, "reply_A": ra.Msg.String()}
+			gotA, gotB := fxA.w[0].Data, fxB.w[1].Data
+			if ra.Msg.Type != wire.Rwrite || uint64(len(gotA)) < offA+uint64(len(dA)) || !bytes.Equal(gotA[offA:offA+uint64(len(dA))], dA) {
+				c.Violation("C17:two-sockets:segmented-frame-stored-bytes-that-are-not-its-own", det)
+				bad = true
+			}
+			if uint64(len(gotB)) < offB+uint64(len(dB)) || !bytes.Equal(gotB[offB:offB+uint64(len(dB))], dB) {
+				c.Violation("C17:two-sockets:other-connection's-frame-stored-bytes-that-are-not-its-own", det)
+				bad = true
+			}
+			c.Count("two_socket_frames", 2)
+		}
+		c.Case("two-sockets", true)
+		fxA.close()
+		fxB.close()
 	}
 }
